@@ -178,6 +178,7 @@ func (e *batchEx) Exec(op string) string {
 	wd := theWorld()
 	if w[0] == "reset" {
 		e.c = wd.AddChannel("VT", world.Options{})
+		e.c.L.Strict = true // CouchDB rules: empty keys are refused at commit
 		e.ids, e.syms = map[string]string{}, map[string]string{}
 		return "ok"
 	}
